@@ -21,6 +21,35 @@ INDEP = [
 ]
 
 
+def errpath_search(res, seed, n):
+    """the draws of an evaluation that ends in a run-time error stay consumed (Run, RunExpr with and without the caller's
+    variable space): the die stored before the failure is the first die of the stream, the next die is a LATER die of the
+    same stream, never the same draw again"""
+    rows, _ = common.run_harness(["c05-errpath", "-seed", seed, "-n", n], timeout=300)
+    found = 0
+    stats = {}
+    for r in rows:
+        stats[r["entry"]] = stats.get(r["entry"], 0) + 1
+        why = None
+        if r.get("panic"):
+            why = "panic: " + r["panic"]
+        elif not r.get("failed"):
+            why = "the statement was expected to end in a run-time error"
+        elif r.get("a") is not None and r["a"] != r["ref_stream"][0]:
+            why = f"the die stored before the failure ({r['a']}) is not the first die of the stream ({r['ref_stream'][0]})"
+        elif r["next"] not in r["ref_stream"][1:]:
+            why = (f"the die after the failed evaluation ({r['next']}) is not a later die of the same stream {r['ref_stream'][1:]}"
+                   + (": it is the SAME draw as the die rolled before the failure" if r["next"] == r["ref_stream"][0] else ""))
+        elif r["state_after_failure"] == r["state_start"]:
+            why = "the generator state after the failed evaluation equals the state before it although a die was rolled"
+        if why and found < 2:
+            res.violation({"what": "dice after a failed evaluation: " + why, "statement": r["stmt"], "entry_point": r["entry"],
+                           "seed_state": [r["hi"], r["lo"]], "then": "Run(\"d1000000000\")", "observed": {k: r.get(k) for k in ("a", "next", "ref_stream")}})
+            found += 1
+    res.cov["error_path_draws"] = {"histories": len(rows), "by_entry_point": stats}
+    return found
+
+
 def independence_search(res, seed):
     """successive dice are separate draws from the context generator, also across function calls, computed values,
     loops and templates: with a huge die, equal results are a 1e-9 event"""
@@ -159,6 +188,7 @@ def run(res, tier, seed):
     try:
         k_inputs, k_rows, f2 = independence_search(res, seed)
         found += f2
+        found += errpath_search(res, seed, 63 if tier == "quick" else 630)
         st = k2cases.correspond(k_inputs, k_rows, "c05k2")
         badk = [i for i, (s_, _) in enumerate(st) if s_ == "bad"]
         res.cov["vm_dice_stream"] = {"programs": len(k_inputs), "model_agrees": sum(1 for s_, _ in st if s_ == "ok"), "disagreements": len(badk),
